@@ -539,6 +539,20 @@ def repeated_producer():
         sx.prove((cons.log[1].code == 0) & (cons.log[4].code == 0) & (cons.log[5].code == 0), "reset frames carry code 0",
                  tag + "/resets")
     sx.prove(len(cons.active) == 0, "active list empty after the final reset", tag + "/active")
+    # every message stands for itself: shorter vendor data after longer data is zero-padded, a reset carries zeros
+    short = sx.fresh_bytes("short", 1)
+    code2 = sx.fresh_int("code2", 0x0100, 0xFFFF)
+    prod.send(code2, reg, short)
+    prod.send(code2, reg)
+    prod.reset()
+    if len(cons.log) == 9:
+        sx.prove(_same_entry(cons.log[6], code2, reg, sx.items(short) + [0, 0, 0, 0], 7), "short data after long data is "
+                 "zero-padded", tag + "/padding")
+        sx.prove(_same_entry(cons.log[7], code2, reg, [0] * 5, 8), "no data after long data is all zeros", tag + "/padding")
+        sx.prove(sx.all_([b == 0 for b in sx.items(cons.log[8].data)]) & (cons.log[8].register == 0),
+                 "reset() carries zeros", tag + "/padding")
+    else:
+        sx.fail("frames missing", tag + "/count")
     sx.reach("producer-history")
 
 
